@@ -707,6 +707,7 @@ func (x *c13Ctx) sc(c *Ctx) uint64 {
 func genC13(c *Ctx) {
 	c13Pure(c)
 	c13Mod1(c)
+	c13Composite(c)
 	maxDeg := c.Scale(31, 63)
 	logNs := []int{5}
 	if c.Thorough() {
@@ -772,6 +773,7 @@ func genC13(c *Ctx) {
 			c13Extensions(c, x)
 			if scheme == "ckks" {
 				c13SparseChebyshev(c, x)
+				c13Chebyshev(c, x)
 			}
 		}
 	}
